@@ -126,10 +126,331 @@ def enc_family():
     H("c06_ref_vs_cast_f64", "h_enc::ref_vs_cast_f64()", Q("C06"), unwind=2, bound="oracle validation: all i64 vs `as f64`")
 
 
+FORMS5 = ["vv", "rr", "vr", "rv", "as"]
+FORMS3 = ["v", "r", "as"]
+OPS = ["and", "or", "xor"]
+
+
+def bits_family():
+    for cfg in ("w64", "w32"):
+        pr = mix(quick=("C09", "C19") if cfg == "w32" else ("C09",), thorough=("C16",))
+        H("k_shl_4", "h_bits::k_shl::<4>()", pr, cfg, unwind=10, bound="shift::shl_in_place on 4 words, all contents, shift 0..W-1")
+        H("k_shr_4", "h_bits::k_shr::<4>()", pr, cfg, unwind=10, bound="shift::shr_in_place on 4 words, all contents, shift 0..=W")
+    # UBig & | ^
+    for na in range(0, 5):
+        for nb in range(0, 5):
+            m = max(na, nb) + 1
+            for op in range(3):
+                for f in range(5):
+                    quick = na <= 3 and nb <= 3 and f == (na + nb * 2 + op) % 5 and (na >= nb or op == 0)
+                    pr = Q("C09", "C15", "C17") if quick else TH("C09", "C15", "C17")
+                    H("c09_%s_u_%d%d_%s" % (OPS[op], na, nb, FORMS5[f]), "h_bits::bitop_u::<%d,%d,%d>(%d,%d)" % (na, nb, m, op, f), pr,
+                      unwind=m + 4, bound="UBig %s UBig, lengths exactly (%d,%d)" % (OPS[op], na, nb))
+    # IBig & | ^ (sign fix-ups)
+    for na in range(0, 4):
+        for nb in range(0, 4):
+            m = max(na, nb) + 1
+            for sa in "pn":
+                for sb in "pn":
+                    if (na == 0 and sa == "n") or (nb == 0 and sb == "n"):
+                        continue
+                    for op in range(3):
+                        for f in range(5):
+                            quick = f == (na + nb * 2 + op + (sa == "n") + 2 * (sb == "n")) % 5 and (na, nb) in ((1, 1), (2, 2), (2, 1), (1, 2), (3, 2), (3, 3), (1, 3), (0, 2), (3, 0))
+                            pr = Q("C09", "C15") if quick else TH("C09", "C15")
+                            H("c09_%s_i_%d%d_%s%s_%s" % (OPS[op], na, nb, sa, sb, FORMS5[f]),
+                              "h_bits::bitop_i::<%d,%d,%d>(%s,%s,%d,%d)" % (na, nb, m, SIGN[sa], SIGN[sb], op, f), pr,
+                              unwind=m + 4, bound="IBig %s IBig, lengths exactly (%d,%d), two's complement oracle" % (OPS[op], na, nb))
+    for n in range(0, 4):
+        for s in "pn":
+            if n == 0 and s == "n":
+                continue
+            for r in (0, 1):
+                H("c09_not_i_%d_%s_%s" % (n, s, "rv"[r]), "h_bits::not_i::<%d,%d>(%s,%s)" % (n, n + 1, SIGN[s], "true" if r == 0 else "false"),
+                  Q("C09") if r == (n % 2) else TH("C09"), unwind=n + 5, bound="!IBig, length exactly %d" % n)
+    # shifts: amount concrete per harness
+    for cfg, W in (("w64", 64), ("w32", 32)):
+        KS = [0, 1, W - 1, W, W + 1, 2 * W - 1, 2 * W, 2 * W + 1, 3 * W, 3 * W + 5]
+        for n in range(0, 4):
+            for ki, k in enumerate(KS):
+                for f in range(3):
+                    q = f == (n + ki) % 3
+                    if cfg == "w32":
+                        pr = mix(quick=("C19",) if (q and n == 2) else (), thorough=("C09", "C19"))
+                    else:
+                        pr = Q("C09", "C15") if q else TH("C09", "C15")
+                    m = n + k // W + 2
+                    H("c09_shl_u_%d_k%d_%s" % (n, k, FORMS3[f]), "h_bits::shl_u::<%d,%d>(%d,%d)" % (n, m, k, f), pr, cfg,
+                      unwind=m + 4, bound="UBig(len %d) << %d" % (n, k))
+                    H("c09_shr_u_%d_k%d_%s" % (n, k, FORMS3[f]), "h_bits::shr_u::<%d,%d>(%d,%d)" % (n, n + 1, k, f), pr, cfg,
+                      unwind=n + 6, bound="UBig(len %d) >> %d" % (n, k))
+                    for s in "pn":
+                        if n == 0:
+                            continue
+                        H("c09_shr_i_%d_%s_k%d_%s" % (n, s, k, FORMS3[f]), "h_bits::shr_i::<%d,%d>(%s,%d,%d)" % (n, n + 1, SIGN[s], k, f), pr, cfg,
+                          unwind=n + 6, bound="IBig(len %d, %s) >> %d (floor)" % (n, s, k))
+                        if s == "n":
+                            H("c09_shl_i_%d_%s_k%d_%s" % (n, s, k, FORMS3[f]), "h_bits::shl_i::<%d,%d>(%s,%d,%d)" % (n, m, SIGN[s], k, f),
+                              pr if cfg == "w32" else TH("C09", "C15"), cfg, unwind=m + 4, bound="IBig(len %d, %s) << %d" % (n, s, k))
+    # queries with symbolic bit index
+    for cfg in ("w64", "w32"):
+        for n in range(0, 5):
+            for w, nm in enumerate(("bit", "bit_len", "tz", "to", "count", "pow2")):
+                pr = Q("C09") if (cfg == "w64" and n <= 3) else TH("C09", "C19")
+                H("c09_q_u_%s_%d" % (nm, n), "h_bits::query_u::<%d,%d>(%d)" % (n, n + 1, w), pr, cfg, unwind=n + 5,
+                  bound="UBig::%s, length exactly %d, bit index symbolic" % (nm, n))
+            for s in "pn":
+                if n == 0 and s == "n":
+                    continue
+                for w, nm in ((0, "bit"), (2, "tz"), (3, "to")):
+                    pr = Q("C09") if (cfg == "w64" and n <= 3) else TH("C09", "C19")
+                    H("c09_q_i_%s_%d_%s" % (nm, n, s), "h_bits::query_i::<%d,%d>(%s,%d)" % (n, n + 1, SIGN[s], w), pr, cfg, unwind=n + 5,
+                      bound="IBig::%s, length exactly %d (%s), bit index symbolic" % (nm, n, s))
+    # single-bit updates, split, ones
+    W = 64
+    NS = [0, 1, W - 1, W, W + 1, 2 * W - 1, 2 * W, 2 * W + 1, 3 * W - 1, 3 * W, 4 * W + 3]
+    for n in range(0, 4):
+        for bi, b in enumerate(NS):
+            m = max(n, b // W + 1) + 1
+            q = (n + bi) % 2 == 0
+            H("c09_set_bit_%d_b%d" % (n, b), "h_bits::setclr_u::<%d,%d>(%d,false)" % (n, m, b), Q("C09", "C17") if q else TH("C09", "C17"), unwind=m + 4, bound="UBig(len %d).set_bit(%d)" % (n, b))
+            H("c09_clear_bit_%d_b%d" % (n, b), "h_bits::setclr_u::<%d,%d>(%d,true)" % (n, m, b), Q("C09", "C17") if not q else TH("C09", "C17"), unwind=m + 4, bound="UBig(len %d).clear_bit(%d)" % (n, b))
+            H("c09_split_bits_%d_b%d" % (n, b), "h_bits::split_u::<%d,%d>(%d,0)" % (n, n + 1, b), Q("C09", "C17") if q else TH("C09", "C17"), unwind=n + 6, bound="UBig(len %d).split_bits(%d)" % (n, b))
+            H("c09_clear_high_%d_b%d" % (n, b), "h_bits::split_u::<%d,%d>(%d,1)" % (n, n + 1, b), Q("C09", "C17") if not q else TH("C09", "C17"), unwind=n + 6, bound="UBig(len %d).clear_high_bits(%d)" % (n, b))
+    for n in range(0, 5):
+        H("c09_next_pow2_%d" % n, "h_bits::next_pow2_u::<%d,%d>()" % (n, n + 1), Q("C09", "C17") if n <= 3 else TH("C09", "C17"), unwind=n + 6, bound="UBig(len %d).next_power_of_two()" % n)
+    for b in sorted(set(list(range(0, 4)) + [W - 1, W, W + 1, 2 * W - 1, 2 * W, 2 * W + 1, 3 * W - 1, 3 * W, 3 * W + 1, 4 * W, 4 * W + 1])):
+        H("c09_ones_%d" % b, "h_bits::ones_u::<%d>(%d)" % (b // W + 1, b), Q("C09", "C05", "C17"), unwind=b // W + 6, bound="UBig::ones(%d) value and canonical layout" % b)
+    for b in (0, 1, 31, 32, 33, 63, 64, 65, 96, 97):
+        H("c09_ones_%d" % b, "h_bits::ones_u::<%d>(%d)" % (b // 32 + 1, b), mix(quick=("C19",), thorough=("C09", "C05")), "w32", unwind=b // 32 + 6, bound="UBig::ones(%d) (32-bit words)" % b)
+
+
+def cmp_family():
+    CV = "dtm"  # capacity variants: default, tight, max-compact
+    for na in range(0, 5):
+        for nb in range(0, 5):
+            un = 8 * max(na, nb) + 4  # slice == is a bytewise memcmp loop
+            k = 0
+            for sa in "pn":
+                for sb in "pn":
+                    if (na == 0 and sa == "n") or (nb == 0 and sb == "n"):
+                        continue
+                    for ca in range(3):
+                        for cb in range(3):
+                            if (na < 3 and ca) or (nb < 3 and cb):
+                                continue
+                            k += 1
+                            quick = na <= 3 and nb <= 3 and (ca + cb) in (0, 3)
+                            H("c05_cmp_i_%d%d_%s%s_%s%s" % (na, nb, sa, sb, CV[ca], CV[cb]),
+                              "h_cmp::cmp_i::<%d,%d>(%s,%s,%d,%d)" % (na, nb, SIGN[sa], SIGN[sb], ca, cb),
+                              Q("C05") if quick else TH("C05"), unwind=un,
+                              bound="IBig cmp/==/abs_cmp, lengths exactly (%d,%d), capacity variants" % (na, nb))
+            for ca in range(3):
+                for cb in range(3):
+                    if (na < 3 and ca) or (nb < 3 and cb):
+                        continue
+                    quick = na <= 3 and nb <= 3 and (ca + cb) in (0, 2)
+                    H("c05_cmp_u_%d%d_%s%s" % (na, nb, CV[ca], CV[cb]), "h_cmp::cmp_u::<%d,%d>(%d,%d)" % (na, nb, ca, cb),
+                      Q("C05", "C14") if quick else TH("C05", "C14"), unwind=un, bound="UBig cmp/==/AbsOrd mixed, lengths exactly (%d,%d)" % (na, nb))
+    for cfg in ("w64", "w32"):
+        for n in range(0, 4):
+            for s in "pn":
+                if n == 0 and s == "n":
+                    continue
+                for ca, cb in ((0, 0), (1, 2)):
+                    if n < 3 and (ca or cb):
+                        continue
+                    H("c05_hash_i_%d_%s_%s%s" % (n, s, CV[ca], CV[cb]), "h_cmp::hash_i::<%d>(%s,%d,%d)" % (n, SIGN[s], ca, cb),
+                      (Q("C05") if cfg == "w64" else mix(quick=("C19",), thorough=("C05",))), cfg, unwind=8 * n + 20,
+                      bound="IBig Hash byte stream, length exactly %d" % n)
+            H("c05_hash_u_vs_i_%d" % n, "h_cmp::hash_u_vs_i::<%d>()" % n, Q("C05") if cfg == "w64" else TH("C05", "C19"), cfg, unwind=8 * n + 20)
+    for n in range(0, 6):
+        H("c05_from_words_%d" % n, "h_cmp::from_words::<%d>()" % n, Q("C05", "C17") if n <= 4 else TH("C05", "C17"), unwind=n + 5,
+          bound="UBig::from_words of %d arbitrary words (leading zeros allowed)" % n)
+        H("c05_from_words_%d" % n, "h_cmp::from_words::<%d>()" % n, mix(quick=("C19",) if n in (2, 3) else (), thorough=("C05", "C17", "C19")), "w32", unwind=n + 5)
+    for n in range(0, 5):
+        for s in "pn":
+            if n == 0 and s == "n":
+                continue
+            for c in range(3):
+                if n < 3 and c:
+                    continue
+                H("c15_clone_i_%d_%s_%s" % (n, s, CV[c]), "h_cmp::clone_i::<%d>(%s,%d)" % (n, SIGN[s], c),
+                  Q("C15", "C17", "C05") if n <= 3 else TH("C15", "C17", "C05"), unwind=n + 5, bound="IBig::clone, length exactly %d" % n)
+    for na in range(0, 5):
+        for nb in range(0, 5):
+            for ca in range(3):
+                for cb in range(3):
+                    if (na < 3 and ca) or (nb < 3 and cb):
+                        continue
+                    for sa, sb in (("p", "n"), ("n", "p"), ("n", "n")):
+                        if (na == 0 and sa == "n") or (nb == 0 and sb == "n"):
+                            continue
+                        quick = na <= 4 and nb <= 4 and ((ca, cb) in ((0, 0), (2, 1), (1, 2))) and (sa, sb) == (("p", "n") if (na + nb) % 2 == 0 or na == 0 else ("n", "p") if nb else ("n", "p"))
+                        H("c15_clone_from_i_%d%d_%s%s_%s%s" % (na, nb, sa, sb, CV[ca], CV[cb]),
+                          "h_cmp::clone_from_i::<%d,%d>(%s,%s,%d,%d)" % (na, nb, SIGN[sa], SIGN[sb], ca, cb),
+                          Q("C15", "C17", "C05") if quick else TH("C15", "C17", "C05"), unwind=max(na, nb) + 5,
+                          bound="IBig::clone_from, lengths (%d <- %d), capacity variants" % (na, nb))
+                    H("c15_clone_from_u_%d%d_%s%s" % (na, nb, CV[ca], CV[cb]), "h_cmp::clone_from_u::<%d,%d>(%d,%d)" % (na, nb, ca, cb),
+                      Q("C17") if (ca, cb) == (0, 0) and na <= 3 and nb <= 3 else TH("C15", "C17"), unwind=max(na, nb) + 5)
+    for n in range(0, 4):
+        for s in "pn":
+            for w in range(11):
+                if n == 0 and s == "n" and w not in (0,):
+                    continue
+                H("c05_parts_i_%d_%s_%d" % (n, s, w), "h_cmp::parts_i::<%d>(%s,%d)" % (n, SIGN[s], w), Q("C05", "C17") if (n + w) % 2 == 0 or n == 3 else TH("C05", "C17"),
+                  unwind=n + 5, bound="sign plumbing (from_parts/into_parts/neg/abs/signum...), length exactly %d" % n)
+            H("c06_try_u_from_i_%d_%s" % (n, s), "h_cmp::try_u_from_i::<%d>(%s)" % (n, SIGN[s]), Q("C06"), unwind=n + 5, bound="TryFrom<IBig> for UBig, length %d" % n)
+    H("c05_static_words", "h_cmp::static_words()", Q("C05", "C17"), unwind=30, bound="from_static_words on 0..3 word statics")
+
+
+def mul_family():
+    for cfg in ("w64", "w32"):
+        pr = mix(quick=("C01", "C19") if cfg == "w32" else ("C01",), thorough=("C16",))
+        H("k_mul_add_carry", "h_mul::k_mul_add_carry()", pr, cfg, unwind=2, bound="math::mul_add_carry/2carry, all words")
+        for n in (2, 3):
+            H("k_mul_word_%d" % n, "h_mul::k_mul_word::<%d>()" % n, pr if n == 2 else TH("C01", "C19"), cfg, unwind=n + 3, bound="mul_word_in_place_with_carry on %d words, full width, product-sharing oracle" % n)
+            H("k_add_mul_word_%d" % n, "h_mul::k_add_mul_word::<%d>()" % n, pr if n == 2 else TH("C01", "C19"), cfg, unwind=n + 3, bound="add_mul_word_same_len_in_place on %d words, full width" % n)
+            H("k_sub_mul_word_%d" % n, "h_mul::k_sub_mul_word::<%d>()" % n, pr if n == 2 else TH("C01", "C19"), cfg, unwind=n + 3, bound="sub_mul_word_same_len_in_place on %d words, full width" % n)
+        for s in "pn":
+            for (na, nb) in ((1, 1), (2, 1), (2, 2)):
+                H("k_simple_full_%d%d_%s" % (na, nb, s), "h_mul::k_simple::<%d,%d,%d>(%s,true,0)" % (na, nb, na + nb, SIGN[s]),
+                  pr if (na, nb) != (2, 2) else TH("C01", "C19"), cfg, unwind=na + nb + 3, bound="schoolbook c+=sign*a*b, %dx%d words, full width, product-sharing oracle" % (na, nb))
+            H("k_simple_full_32_%s" % s, "h_mul::k_simple::<3,2,5>(%s,true,0)" % SIGN[s], TH("C01"), cfg, unwind=8, bound="schoolbook 3x2 words, full width")
+            for (na, nb) in ((3, 3), (4, 3), (4, 4)):
+                H("k_simple_s4_%d%d_%s" % (na, nb, s), "h_mul::k_simple::<%d,%d,%d>(%s,false,4)" % (na, nb, na + nb, SIGN[s]),
+                  Q("C01") if (cfg == "w64" and (na, nb) == (3, 3)) else TH("C01", "C19"), cfg, unwind=na + nb + 3,
+                  bound="schoolbook %dx%d words, structured words (4-bit payload x 4 placements)" % (na, nb))
+            for n in (3, 4, 5, 6):
+                H("k_karatsuba_%d_%s" % (n, s), "h_mul::k_karatsuba::<%d,%d>(%s,3)" % (n, 2 * n, SIGN[s]), TH("C01", "C19"), cfg, unwind=2 * n + 3,
+                  bound="Karatsuba kernel n=%d, structured words (3-bit payload x 4 placements), non-zero accumulator" % n)
+        H("k_sqr_full_2", "h_mul::k_sqr::<2,4>(true,0)", TH("C01"), cfg, unwind=7, bound="sqr 2 words, full width")
+        for n in (2, 3, 4):
+            H("k_sqr_s4_%d" % n, "h_mul::k_sqr::<%d,%d>(false,4)" % (n, 2 * n), Q("C01") if (cfg == "w64" and n <= 3) else TH("C01", "C19"), cfg, unwind=2 * n + 3, bound="sqr %d words, structured" % n)
+        for n in (2, 3, 4):
+            H("k_mul_dword_s4_%d" % n, "h_mul::k_mul_dword::<%d,%d>(4)" % (n, n + 2), Q("C01") if (cfg == "w64" and n <= 3) else TH("C01", "C19"), cfg, unwind=n + 5, bound="mul_dword_in_place on %d words, structured" % n)
+    # operators
+    for na in range(0, 4):
+        for nb in range(0, 4):
+            m = max(na + nb, 1)
+            for f in range(5):
+                quick = f == (na * 2 + nb) % 5
+                H("c01_mul_u_%d%d_%s" % (na, nb, FORMS5[f]), "h_mul::mul_u::<%d,%d,%d>(%d,false,5)" % (na, nb, m, f),
+                  Q("C01", "C15", "C17") if quick else TH("C01", "C15", "C17"), unwind=m + 5, bound="UBig*UBig lengths exactly (%d,%d), structured words (5-bit payload)" % (na, nb))
+            if na + nb <= 2 and na and nb:
+                H("c01_mul_u_full_%d%d" % (na, nb), "h_mul::mul_u::<%d,%d,%d>(1,true,0)" % (na, nb, m), TH("C01"), unwind=m + 5, bound="UBig*UBig (%d,%d) full width" % (na, nb))
+            for sa in "pn":
+                for sb in "pn":
+                    if (na == 0 and sa == "n") or (nb == 0 and sb == "n"):
+                        continue
+                    f = (na + nb + (sa == "n") + 2 * (sb == "n")) % 5
+                    quick = (na, nb) in ((1, 1), (2, 1), (3, 2), (0, 2), (3, 3), (1, 3))
+                    H("c01_mul_i_%d%d_%s%s" % (na, nb, sa, sb), "h_mul::mul_i::<%d,%d,%d>(%s,%s,%d,4)" % (na, nb, m, SIGN[sa], SIGN[sb], f),
+                      Q("C01", "C15") if quick else TH("C01", "C15"), unwind=m + 5, bound="IBig*IBig lengths (%d,%d) signs %s%s, structured" % (na, nb, sa, sb))
+            for sb in "pn":
+                if nb == 0 and sb == "n":
+                    continue
+                w = (na + nb + (sb == "n")) % 4
+                H("c15_mul_mixed_%d%d_%s_%d" % (na, nb, sb, w), "h_mul::mul_mixed::<%d,%d,%d>(%s,%d,4)" % (na, nb, m, SIGN[sb], w),
+                  Q("C15") if (na + nb) % 2 == 1 else TH("C15", "C01"), unwind=m + 5, bound="UBig*IBig mixed forms (%d,%d)" % (na, nb))
+    for n in (1, 2, 3):
+        for w in range(4):
+            H("c01_sqr_u_%d_%d" % (n, w), "h_mul::sqr_u::<%d,%d,%d>(%d,4)" % (n, 2 * n, 3 * n, w), Q("C01", "C15") if (n <= 2 or w != 3) else TH("C01"), unwind=3 * n + 5,
+              bound="x*x (equal-operand shortcut) / sqr / cubic, length %d, structured" % n)
+    for e in range(0, 8):
+        m = 1 if 16 * e <= 64 else 2
+        H("c01_pow_u_e%d" % e, "h_mul::pow_u::<%d>(%d,9,false)" % (m, e), Q("C01"), unwind=m + 10, bound="UBig::pow, base = p*2^t or 2^t (p<2^9, t<8), exponent %d" % e)
+        H("c01_pow_i_e%d" % e, "h_mul::pow_u::<%d>(%d,9,true)" % (m, e), Q("C01") if e % 2 else TH("C01"), unwind=m + 10, bound="IBig::pow negative base, exponent %d" % e)
+
+
+def wconst(cfg, name):
+    W = 64 if cfg.endswith("64") else 32
+    M = (1 << W) - 1
+    return {"3": 3, "10": 10, "max": M, "top": 1 << (W - 1), "top1": (1 << (W - 1)) + 1, "maxm1": M - 1, "one": 1,
+            "rad": 10 ** 19 if W == 64 else 10 ** 9, "7": 7}[name]
+
+
+def div_family():
+    for cfg in ("w64", "w32"):
+        pr = mix(quick=("C02", "C19") if cfg == "w32" else ("C02",), thorough=("C16",))
+        for n in (2, 3, 4):
+            H("k_div_word_pow2_%d" % n, "h_div::k_div_word_pow2::<%d>()" % n, pr if n == 3 else TH("C02", "C19"), cfg, unwind=n + 3,
+              bound="div_by_word_in_place/rem_by_word, divisor 2^k (k symbolic), all dividends of %d words" % n)
+            H("k_div_dword_pow2_%d" % n, "h_div::k_div_dword_pow2::<%d>()" % n, pr if n == 3 else TH("C02", "C19"), cfg, unwind=n + 3,
+              bound="div_by_dword_in_place/rem_by_dword, divisor 2^(W+k) (k symbolic), all dividends of %d words" % n)
+        for dn in ("one", "3", "10", "max", "top", "top1", "rad"):
+            d = wconst(cfg, dn)
+            for n, full in ((2, True), (3, False), (4, False)):
+                q = cfg == "w64" and ((n == 2) or (n == 3)) and dn in ("3", "max", "top1", "one", "rad")
+                H("k_div_word_%s_%d%s" % (dn, n, "f" if full else "s"), "h_div::k_div_word::<%d,%d>(%d,%s)" % (n, n + 1, d, "true" if full else "false"),
+                  Q("C02") if q else TH("C02", "C19"), cfg, unwind=n + 5,
+                  bound="div_by_word_in_place, concrete divisor %s, dividends of %d words (%s)" % (dn, n, "full width" if full else "structured"))
+        for (lo, hi) in (("one", "one"), ("max", "max"), ("3", "top"), ("maxm1", "7"), ("one", "top1")):
+            dl, dh = wconst(cfg, lo), wconst(cfg, hi)
+            for n in (2, 3, 4):
+                q = cfg == "w64" and n == 3 and (lo, hi) in (("max", "max"), ("3", "top"), ("maxm1", "7"))
+                H("k_div_dword_%s_%s_%d" % (lo, hi, n), "h_div::k_div_dword::<%d,%d>(%d,%d,false)" % (n, n + 2, dl, dh),
+                  Q("C02") if q else TH("C02", "C19"), cfg, unwind=n + 6, bound="div_by_dword_in_place, concrete divisor (%s,%s), structured dividends of %d words" % (lo, hi, n))
+    WH = ["div", "rem", "divrem", "div_euclid", "rem_euclid", "divrem_euclid", "divrem_assign", "opassign", "multiple"]
+    for na in range(0, 5):
+        for nb in range(1, 5):
+            p = max(na, nb) + 1
+            for w in range(9):
+                nf = 4 if w <= 2 else (2 if w == 7 else 1)
+                for f in range(nf):
+                    small = na <= 3 and nb <= 3
+                    quick = small and f == (na + nb + w) % nf and ((na, nb) in ((1, 1), (2, 1), (2, 2), (3, 1), (3, 2), (3, 3), (1, 3), (0, 2), (2, 3)))
+                    pr = Q("C02", "C15", "C17") if quick else TH("C02", "C15", "C17")
+                    H("c02_%s_u_%d%d_f%d" % (WH[w], na, nb, f), "h_div::div_u::<%d,%d,%d>(%d,%d,4)" % (na, nb, p, w, f), pr, unwind=p + 6,
+                      bound="UBig %s, lengths exactly (%d,%d), structured words (4-bit payload x 4 placements), identity q*b+r=a" % (WH[w], na, nb))
+    for na in (0, 1, 2, 3):
+        for w in range(9):
+            H("c02_div_u_zero_%d_%d" % (na, w), "h_div::div_u_zero::<%d>(%d)" % (na, w), Q("C02", "C16") if (na + w) % 2 == 0 else TH("C02", "C16"), kind="panic", unwind=na + 6,
+              bound="UBig division by zero panics (length %d)" % na)
+    TW = {0: "div_rem_ops", 2: "divrem", 3: "divrem_assign", 4: "opassign"}
+    for na in range(0, 4):
+        for nb in range(1, 4):
+            p = max(na, nb) + 1
+            for sa in "pn":
+                for sb in "pn":
+                    if na == 0 and sa == "n":
+                        continue
+                    for w in (0, 2, 3, 4):
+                        nf = 4 if w in (0, 2) else 1
+                        for f in range(nf):
+                            quick = f == (na + nb + (sa == "n") + (sb == "n")) % nf and (na, nb) in ((1, 1), (2, 1), (3, 2), (3, 3), (2, 2)) and w in (0, 2)
+                            H("c02_%s_i_%d%d_%s%s_f%d" % (TW[w], na, nb, sa, sb, f), "h_div::div_i_trunc::<%d,%d,%d>(%s,%s,%d,%d,4)" % (na, nb, p, SIGN[sa], SIGN[sb], w, f),
+                              Q("C02", "C15") if quick else TH("C02", "C15"), unwind=p + 6, bound="IBig truncating division %s, lengths (%d,%d), signs %s%s, structured" % (TW[w], na, nb, sa, sb))
+    for cfg in ("i64", "i32"):
+        for sa in "pn":
+            for sb in "pn":
+                for w in range(4):
+                    H("c02_euclid_small_%s%s_%d" % (sa, sb, w), "h_div::div_i_euclid_small(%s,%s,%d,10)" % (SIGN[sa], SIGN[sb], w),
+                      (Q("C02", "C15") if w in (0, 2) else TH("C02", "C15")) if cfg == "i64" else TH("C02", "C19"), cfg, unwind=6,
+                      bound="IBig Euclidean forms, |a|,|b| < 2^10 (one word), signs %s%s, inline-only regime, identity in i128" % (sa, sb))
+                H("c02_trunc_small_%s%s" % (sa, sb), "h_div::div_i_trunc_small(%s,%s,10)" % (SIGN[sa], SIGN[sb]), Q("C02") if cfg == "i64" else TH("C02", "C19"), cfg, unwind=6,
+                  bound="IBig div_rem/is_multiple_of, |a|,|b| < 2^10, signs %s%s" % (sa, sb))
+    # ConstDivisor, concrete divisors per class
+    W = 64
+    M = (1 << W) - 1
+    DIVS = {"one": [1], "pow2": [1 << 20], "odd": [0x1234567], "noshift": [(1 << (W - 1)) + 5], "noshift2": [M - 2], "dw_noshift": [5, 1 << (W - 1)], "dw_shift": [9, 7], "dw_pow2": [0, 1 << 9],
+            "lg3": [7, 0, 5], "lg3_top": [M, 0, 1 << (W - 1)]}
+    for dn, d in DIVS.items():
+        for na in (1, 2, 3, 4):
+            for w in range(4):
+                quick = w == (na + len(d)) % 4 and na in (2, 3)
+                H("c02_constdiv_%s_%d_%d" % (dn, na, w), "h_div::const_div::<%d,%d>([%s],%d,4)" % (na, len(d), ",".join(str(v) for v in d), w),
+                  Q("C02") if quick else TH("C02"), unwind=na + len(d) + 8, bound="ConstDivisor(%s) vs plain division, structured dividends of %d words" % (dn, na))
+
+
 def build():
     global T, _names
     T = []
     _names = set()
     add_family()
     enc_family()
+    bits_family()
+    cmp_family()
+    mul_family()
+    div_family()
     return T
